@@ -31,7 +31,9 @@
                      for PointwiseNorm, |z| > 0 for ComplexModulus.  (Norm/Dist singularities are covered by
                      [deriv_ok]: the code raises there.) *)
 From Coq Require Import Reals List Bool ZArith.
-From Verif Require Import Base.Num Base.Vec C06.Syntax Gen.UfuncDeriv C06.Model C06.Calc C06.Lin C06.LinMap C06.Leaves C06.Proofs C06.FModel C06.FProofs Gen.Derivatives C06.Interp C06.Tie Gen.Gradients C06.FInterp C06.FTie.
+From Verif Require Import Base.Num Base.Vec C06.Syntax Gen.UfuncDeriv C06.Model C06.Calc C06.Lin C06.LinMap C06.Leaves C06.Proofs C06.FModel C06.FProofs Gen.Derivatives C06.Interp C06.Tie Gen.Gradients C06.FInterp C06.FTie Base.Transfer C06.Corr C06.Transfer.
+From Coq Require Import QArith Qreals.
+Local Open Scope R_scope.
 Import ListNotations.
 Local Open Scope R_scope.
 
@@ -233,6 +235,37 @@ Theorem model_gradient_is_regenerated_rule :
   fgrad rt mav w f x = gval rt mav (fgrad rt mav) w f (grad_rule c) x.
 Proof. exact (@fgrad_is_source_rule). Qed.
 Print Assumptions model_gradient_is_regenerated_rule.
+
+(* TRANSFER.  The correspondence shards execute the model at Q (C06/Corr.v, [primsQ]); the
+   theorems are about the model at R.  On the polynomial part of the model ([tpoly]: all 13
+   classes; leaves Scaling, Multiply, Matrix, InnerProduct (any weights), Zero, Constant,
+   Power with exponent >= 1, ufunc square / negative, the user-defined cubic leaf and its
+   derivative object, PointwiseInner, RealPart, ImagPart, ComplexModulusSquared and its
+   derivative object -- i.e. no square root, no transcendental function, no division) the
+   run at Q IS the rational restriction of the object at R: Q2R commutes with evaluation and
+   with the construction of the derivative object ([omap] = the same operator with every
+   constant mapped by Q2R), and the flags / spaces agree. *)
+Theorem eval_Q_is_restriction_of_eval_R :
+  forall (e : @oexpr Q), tpoly e = true ->
+  forall x : list Q,
+  map Q2R (eval primsQ e x) = eval (PR ex_af ex_ad ex_dm ex_dm) (omap e) (map Q2R x).
+Proof. exact eval_transfer. Qed.
+Print Assumptions eval_Q_is_restriction_of_eval_R.
+
+Theorem derivative_Q_is_restriction_of_derivative_R :
+  forall (e : @oexpr Q), tpoly e = true ->
+  forall x : list Q,
+  omap (derivative primsQ e x) = derivative (PR ex_af ex_ad ex_dm ex_dm) (omap e) (map Q2R x).
+Proof. exact derivative_transfer. Qed.
+Print Assumptions derivative_Q_is_restriction_of_derivative_R.
+
+Theorem flags_and_spaces_transfer :
+  forall (e : @oexpr Q),
+  is_lin (omap e) = is_lin e /\
+  dom (PR ex_af ex_ad ex_dm ex_dm) (omap e) = dom primsQ e /\
+  ran (PR ex_af ex_ad ex_dm ex_dm) (omap e) = ran primsQ e.
+Proof. exact (fun e => conj (is_lin_tr e) (conj (dom_tr e) (ran_tr e))). Qed.
+Print Assumptions flags_and_spaces_transfer.
 
 (* T1 for functionals (odl/solvers/functional/functional.py, model C06/FModel.v):
    Functional.derivative(x) = InnerProductOperator(gradient(x)).  For EVERY tree of
